@@ -132,6 +132,16 @@ Theorem C02_flood_beyond_capacity_survived : forall c orc f q t extra,
     repeat (RTcp 1 (resolve c (q_sip q))) (Z.to_nat (c_cap c)) ++ repeat (RIgnored 10) extra.
 Proof. exact flood_same_frame. Qed.
 
+
+(* a flood at ANY pace (slots idle > 30 s are taken over): never fatal, exactly
+   min(n, capacity) slots occupied - the checker's expectation is independent of wall time *)
+Theorem C02_flood_any_pace : forall c orc f q us,
+  answered_syn c f = Some q -> 0 <= c_cap c ->
+  no_fatal (run c orc [] (map (fun t => (t, f)) us)) /\
+  exists tb', run_table c orc [] (map (fun t => (t, f)) us) = Some tb' /\
+              occupied tb' = Z.min (zlen us) (c_cap c).
+Proof. exact flood_any_timing_empty. Qed.
+
 (* the two facts the checker's use of the closed form rests on *)
 Theorem C02_checker_flood_head : forall c orc now f b tb',
   rx c orc [] now f = (RTcp 1 b, tb') -> exists q, answered_syn c f = Some q.
@@ -286,3 +296,4 @@ Print Assumptions C02_table_get_is_first_match.
 Print Assumptions C02_table_get_none_exactly_when_no_match.
 Print Assumptions C02_table_ops_stay_within_array.
 Print Assumptions C02_checker_fill_is_n_adds.
+Print Assumptions C02_flood_any_pace.
